@@ -240,6 +240,7 @@ fn derive(cfg: &Cfg, w0: &str, ex0: &[usize], k: usize, cache: &mut Cache) -> De
     let mut steps = vec![];
     let mut chain = vec![];
     let mut nt = false;
+    let mut seam = false;
     for _ in 0..k {
         let cl = split(&word, g);
         let cd: Vec<bool> = cl.iter().map(|c| cache.can_delete(c, pm)).collect();
@@ -289,7 +290,7 @@ fn derive(cfg: &Cfg, w0: &str, ex0: &[usize], k: usize, cache: &mut Cache) -> De
                         nt = true;
                     }
                     if !expl.iter().any(|(_, mw, _)| *mw == ncl) {
-                        tagset.insert("seam".into());
+                        seam = true;
                     }
                 } else {
                     tagset.insert("unexplained".into());
@@ -297,6 +298,14 @@ fn derive(cfg: &Cfg, w0: &str, ex0: &[usize], k: usize, cache: &mut Cache) -> De
                 chain.push(Val::L(vec![Val::L(ncl.iter().map(|c| Val::str(c)).collect()), usize_list(&nexv)]));
                 word = nw;
                 ex = nexv;
+                if seam {
+                    // grapheme mode only: the edit is explained at text level, but re-segmenting the
+                    // result does not give the clusters the edit produced (a neighbour joined or split).
+                    // Known-finding class KF1-seam; the chain is cut here so that the class covers
+                    // nothing but this last call.
+                    tagset.insert("class:KF1-seam".into());
+                    break;
+                }
             }
         }
     }
